@@ -44,6 +44,27 @@ def main() -> None:
         keys = ", ".join((hist[-1]["results"].get(prop, {}).get("keys") or [])[:3]) if hist else ""
         needs = re.sub(r"\s+", " ", meta.get("needs", ""))[:160]
         lines.append(f"| {name} | {prop} | {needs} | {first} | {now} | {keys} |")
+    # ---- as-built tier sizes and the latest evidence per property
+    import importlib
+    import sys
+
+    sys.path.insert(0, ROOT)
+    from vkit.harness import CHECKS
+
+    lines += ["", "### 8.3 Tiers as built (from each check's plan()) and the latest committed evidence", "",
+              "| property | level | quick cases | thorough cases | latest evidence: tier / cases / distinct non-trivial / wall s |", "|---|---|---|---|---|"]
+    for pid in sorted(CHECKS):
+        try:
+            mod = importlib.import_module(CHECKS[pid])
+        except Exception:
+            continue
+        q, t = mod.plan("quick")["cases"], mod.plan("thorough")["cases"]
+        evp = os.path.join(ROOT, "evidence", f"{pid}.json")
+        evs = ""
+        if os.path.exists(evp):
+            ev = json.load(open(evp))
+            evs = f"{ev['tier']} / {ev['coverage']['evaluations']} / {ev['coverage']['distinct_nontrivial']} / {ev['wall_s']}"
+        lines.append(f"| {pid} | {mod.LEVEL} | {q} | {t} | {evs} |")
     block = "\n".join(lines)
     path = os.path.join(ROOT, "DESIGN.md")
     text = open(path).read()
